@@ -51,7 +51,7 @@ Section CodeInd.
   Hypothesis HBin : forall op a b, P a -> P b -> P (KBin op a b).
   Hypothesis HNeg : forall a, P a -> P (KNeg a).
   Hypothesis HLet : forall x a b, P a -> P b -> P (KLet x a b).
-  Hypothesis HIf : forall c t pt e pe, P c -> P t -> P e -> P (KIf c t pt e pe).
+  Hypothesis HIf : forall c p0 t pt pad e pe, P c -> P t -> P e -> P (KIf c p0 t pt pad e pe).
   Hypothesis HCall : forall f args push, Forall P args -> P (KCall f args push).
   Hypothesis HMem : forall a push, P a -> P (KMem a push).
   Hypothesis HDelay : forall n a t push, P a -> P t -> P (KDelay n a t push).
@@ -65,7 +65,7 @@ Section CodeInd.
     | KBin op a b => HBin op a b (code_ind' a) (code_ind' b)
     | KNeg a => HNeg a (code_ind' a)
     | KLet x a b => HLet x a b (code_ind' a) (code_ind' b)
-    | KIf c t pt e pe => HIf c t pt e pe (code_ind' c) (code_ind' t) (code_ind' e)
+    | KIf c p0 t pt pad e pe => HIf c p0 t pt pad e pe (code_ind' c) (code_ind' t) (code_ind' e)
     | KCall f args push =>
         HCall f args push ((fix go (l : list code) : Forall P l :=
                          match l with
